@@ -608,8 +608,34 @@ fn c17_scenarios(thorough: bool) -> Vec<Scenario> {
     v
 }
 
+/// C12 under threads: marker tags through one-to-one blocks on the
+/// multithreaded runner (the tag comparison is part of every MtResult run).
+fn c12_scenarios(thorough: bool) -> Vec<Scenario> {
+    let mut v = Vec::new();
+    for st in [Stage::AddConst(1), Stage::SyncId, Stage::MoveWait] {
+        for (per_page, len, vec_repeat) in [(1usize, 2usize, 0u64), (2, 3, 0), (2, 1, 3)] {
+            for order in [vec![0usize, 1, 2], vec![2, 1, 0]] {
+                v.push(Scenario::MtResult(
+                    GraphSpec {
+                        shape: Shape::Chain(vec![st.clone()]),
+                        per_page,
+                        pages: 1,
+                        src_len: len,
+                        order,
+                        file_repeat: 0,
+                        vec_repeat,
+                    },
+                    if thorough { 2 } else { 1 },
+                ));
+            }
+        }
+    }
+    v
+}
+
 fn scenarios(prop: &str, thorough: bool) -> Vec<Scenario> {
     match prop {
+        "C12" => c12_scenarios(thorough),
         "C17" | "C14" => c17_scenarios(thorough),
         "C02" => c02_scenarios(thorough),
         "C03" => c03_scenarios(thorough),
